@@ -95,7 +95,7 @@ Definition only_dev (k : nat) : deviations :=
      d_aug_target_twice := Nat.eqb k 4; d_fstring_conv := Nat.eqb k 5; d_list_target := Nat.eqb k 6;
      d_del_attr_state := Nat.eqb k 7; d_aug_not_inplace := Nat.eqb k 100; d_uadd_identity := Nat.eqb k 101;
      d_dict_eager_insert := Nat.eqb k 102; d_kw_dup_silent := Nat.eqb k 103; d_comp_leak_on_exc := Nat.eqb k 104;
-     d_set_late_hash := Nat.eqb k 105; d_unpack_drain := false |}.
+     d_set_late_hash := Nat.eqb k 105; d_fstr_conv_early := false; d_unpack_drain := false |}.
 
 (* the witnesses of the findings, as Syntax terms (the same programs as in known_findings.d/C01.json) *)
 Definition w_D1 : program := [SAssign [EName n_d] (EDict [(Some (tr 1 (EConst (CStr n_k))), tr 2 (EConst (CStr n_v)))])].
